@@ -381,7 +381,7 @@ def replay(case, rec):
 
 
 def run(rec, rng, tier, shard, nshards):
-    n = 2500 if tier == 'quick' else 40000
+    n = 6000 if tier == 'quick' else 60000
     names, weights = zip(*GENS)
     for i in range(n):
         case = rng.choices(names, weights)[0](rng)
